@@ -82,6 +82,7 @@ _C05 = [
 EP = "distance3d/epa.py"
 CO = "distance3d/colliders.py"
 JO = "distance3d/gjk/_gjk_jolt.py"
+LBX = "distance3d/distance/_line_to_box.py"
 MP = "distance3d/mpr.py"
 MK = "distance3d/minkowski.py"
 HP = "distance3d/hydroelastic_contact/_halfplanes.py"
@@ -466,10 +467,18 @@ _C20b = [
 
 JO = "distance3d/gjk/_gjk_jolt.py"
 ME = "distance3d/mesh.py"
-LBX = "distance3d/distance/_line_to_box.py"
 RB = "distance3d/hydroelastic_contact/_rigid_body.py"
 MP = "distance3d/mpr.py"
 _SEEDLIKE = [
+    M(["C10", "C11"], "boxface-leaf-store-sign", LBX, "_box_face", "point_in_box[i2] = -box_half_size[i2]", "point_in_box[i2] = box_half_size[i2]", ["R-BOXFACE"], nth=0),
+    M(["C10", "C11"], "boxface-delta-wrong-offset", LBX, "_box_face", "direction_in_box[i1] * point_m_edge[i1]", "direction_in_box[i1] * point_p_edge[i1]", ["R-BOXFACE"], nth=0),
+    M(["C10", "C11"], "boxface-copy-stale-index", LBX, "_box_face", "tmp <= 2.0 * l_sqr * box_half_size[i1]", "tmp <= 2.0 * l_sqr * box_half_size[i2]", ["R-BOXFACE", "re-uses the i1-edge"], nth=1),
+    M(["C10", "C11"], "boxface-one-sided-lsqr", LBX, "_box_face", "l_sqr += direction_in_box[i2] * direction_in_box[i2]", "l_sqr += direction_in_box[i1] * direction_in_box[i1]", ["R-BOXFACE"], nth=0),
+    M(["C10", "C11"], "linebox-case0-axes-swapped", LBX, "_line_to_box", "_case_0(0, 2, 1, point_in_box, direction_in_box, box_half_size)", "_case_0(0, 1, 2, point_in_box, direction_in_box, box_half_size)", ["R-CASEDISPATCH", "(+,0,+)"]),
+    M(["C10", "C11"], "linebox-case00-wrong-axis", LBX, "_line_to_box", "_case_00(1, 0, 2, point_in_box, direction_in_box, box_half_size)", "_case_00(0, 1, 2, point_in_box, direction_in_box, box_half_size)", ["R-CASEDISPATCH", "(0,+,0)"]),
+    M(["C10", "C11"], "linebox-test-wrong-component", LBX, "_line_to_box", "direction_in_box[2] > 0.0", "direction_in_box[1] > 0.0", ["R-CASEDISPATCH"], nth=1),
+    M(["C10", "C11"], "linebox-face-wrong-winner", LBX, "_case_no_zeros", "_box_face(2, 0, 1, point_in_box, direction_in_box, point_m_edge, box_half_size)", "_box_face(0, 1, 2, point_in_box, direction_in_box, point_m_edge, box_half_size)", ["R-TOURNAMENT", "leaf"], nth=0),
+    M(["C10", "C11"], "linebox-comparison-not-antisymmetric", LBX, "_case_no_zeros", "prod_dz_py = direction_in_box[2] * point_m_edge[1]", "prod_dz_py = direction_in_box[2] * point_m_edge[0]", ["R-TOURNAMENT", "comparison"]),
     M(["C04"], "axis-capsule-aabb", "distance3d/containment.py", "capsule_aabb", "0.5 * height * np.abs(capsule2origin[:3, 2]) + radius", "0.5 * height * np.abs(capsule2origin[:3, 0]) + radius", ["R-AXIS", "capsule_aabb"]),
     M(["C04", "C12"], "aabb-cone-pose-row", "distance3d/containment.py", "cone_aabb", "cone2origin[:3, 3] + height * cone2origin[:3, 2]", "cone2origin[:3, 3] + height * cone2origin[2, :3]", ["R-", "cone_aabb"]),
     M(["C04"], "aabbargs-capsule-swapped", "distance3d/colliders.py", "Capsule.aabb", "capsule_aabb(self.capsule2origin, self.radius, self.height)", "capsule_aabb(self.capsule2origin, self.height, self.radius)", ["R-AABBARGS", "Capsule.aabb"]),
